@@ -226,6 +226,18 @@ def check_opcode(I, opc, props, pr, profile='dev'):
             if r == 'sat': cand(f'interp/{name}/mem-value', 'memory after the instruction differs from the ISA value', m, path=p)
             r, m = pr.prove(f'{name}:frames', assume, And(Q.sfi == exp_sfi, *frames_eq(Q.frames, exp_frames)))
             if r == 'sat': cand(f'interp/{name}/frame-state', 'call-frame state differs', m, path=p)
+        if 'C07' in props:
+            # frame lemma: a step never modifies the frames of suspended callers (indices below the depth after the step)
+            for j in range(8):
+                below = And(ULT(BitVecVal(j, 64), P.sfi), ULT(BitVecVal(j, 64), Q.sfi))
+                same = And(*frames_eq([Q.frames[j]], [P.frames[j]]))
+                if all(a.eq(b) for a, b in zip([Q.frames[j][0]] + list(Q.frames[j][1]) + list(Q.frames[j][2]), [P.frames[j][0]] + list(P.frames[j][1]) + list(P.frames[j][2]))):
+                    pr.out['obligations'] += 1; pr.out['discharged'] += 1; continue
+                r, m = pr.prove(f'{name}:suspended-frame-{j}-untouched', pc_, Implies(below, same), sample=f'{name}: frames of suspended callers are not modified')
+                if r == 'sat': cand(f'interp/{name}/suspended-frame-modified', f'frame {j} of a suspended caller is modified', m, path=p)
+            if k == 'call':
+                r, m = pr.prove(f'{name}:local-call-needs-depth<8', pc_, Or(P.src != 1, ULT(P.sfi, 8)), sample='call: a local call continues only at depth < 8 (deeper nesting is an error)')
+                if r == 'sat': cand(f'interp/{name}/depth-not-checked', 'local call performed at depth 8', m, path=p)
         if 'C18' in props and k == 'xadd':
             n = info['size']; addr = O.access[0]
             ev = [e for e in Q.events if e[0] == 'atomic_rmw']
